@@ -26,6 +26,17 @@ inductive LogLevel where
   | trace | debug | info | warn | disabled
 deriving DecidableEq, Repr, Inhabited
 
+/-- `serve.<service>.cors` (the options handed to `rs/cors`), as far as the *names* of the response headers it sets are
+concerned: `allowed_origins` (lower-cased; empty or containing `*` = every origin; wildcard patterns are not
+modelled), whether `GET` is among `allowed_methods` (absent list = GET, POST, HEAD), `allow_credentials`.  Only
+`proxy/service.go` puts the CORS middleware into its chain; the decision service accepts the same configuration block
+and ignores it. -/
+structure Cors where
+  origins : List String := []
+  allowsGet : Bool := true
+  allowCredentials : Bool := false
+deriving DecidableEq, Repr, Inhabited
+
 /-- `serve.<service>.respond.with.*.code`; 0 = not configured -/
 structure Cfg where
   accepted : Nat := 0
@@ -41,12 +52,22 @@ structure Cfg where
   the level is trace, the middlewares dump requests), but only to write log lines: no function of the model reads this
   field — that *is* the model of the code's behaviour, and the correspondence check varies the level to validate it -/
   logLevel : LogLevel := .disabled
+  /-- `serve.<service>.cors`.  No function of `serve` below reads it: `serve` is the service handler *behind* the
+  middlewares.  What the CORS middleware in front of the proxy's handler does with the response before the handler runs
+  is `Model/HttpChain.lean` (`serveChain`), proved equal to `serve` except for preflight requests -/
+  cors : Option Cors := none
 deriving DecidableEq, Repr, Inhabited
 
-/-- what the error translators look at in the request besides the error: `negotiable` = the `Accept` header is
-absent or content negotiation against text/html, application/json, text/plain, application/xml succeeds -/
+/-- what the error translators and the middlewares in front of the handler look at in the request besides the error:
+`negotiable` = the `Accept` header is absent or content negotiation against text/html, application/json, text/plain,
+application/xml succeeds -/
 structure ReqView where
   negotiable : Bool := true
+  /-- value of the request's `Origin` header (`none` = absent), lower-cased -/
+  origin : Option String := none
+  /-- a CORS preflight request: method `OPTIONS` with a non-empty `Access-Control-Request-Method` header (asking for
+  `GET`, no `Access-Control-Request-Headers`); otherwise the request is a `GET` -/
+  preflight : Bool := false
 deriving DecidableEq, Repr, Inhabited
 
 /-- response classes of the two error translators, in the order of their `switch` -/
